@@ -226,6 +226,8 @@ impl EventGen for Container {
                 } else if bbox.is_some() {
                     new_el.content_bbox = bbox;
                     context.update_element(&new_el);
+                    // any transform (e.g. on an <a>) moves the content as it does for <g>
+                    bbox = new_el.transformed(bbox)?;
                 }
 
                 if bbox.is_some() {
